@@ -172,6 +172,20 @@ fn check_accept(ctx: &Ctx, civ: &Civil, y: i64, l: &mut Local) {
       }
     }
   }
+  // the year and month objects themselves: constructible exactly for years 1..9999 and months 1..12
+  {
+    let yok = guard(|| SolarYear::new(y as isize).is_ok()).unwrap_or(false);
+    l.transitions += 15;
+    if yok != (y >= 1 && y <= 9999) {
+      ctx.violation("accept", format!("{:04} year", y), format!("SolarYear::new({}) accepted={}", y, yok), vec!["year".into(), y.to_string()]);
+    }
+    for m in 0..=13i64 {
+      let mok = guard(|| SolarMonth::new(y as isize, m as usize).is_ok()).unwrap_or(false);
+      if mok != (y >= 1 && y <= 9999 && m >= 1 && m <= 12) {
+        ctx.violation("accept", format!("{:04}-{:02} month", y, m), format!("SolarMonth::new({}, {}) accepted={}", y, m, mok), vec!["year".into(), y.to_string()]);
+      }
+    }
+  }
   if y >= 1 && y <= 9999 {
     // year / month lengths, leap flag
     let r = guard(|| {
